@@ -60,6 +60,8 @@ func init() {
 			{ID: "C01-R32", Title: "the dispatch loop gives nil no meaning of its own", Floor: 1, Run: theDispatchLoopGivesNilNoMeaningOfItsOwn},
 			{ID: "C01-R33", Title: "operators do not manufacture constants", Floor: 1, Run: operatorsDoNotManufactureConstants},
 			{ID: "C01-R34", Title: "assignment targets are evaluated before the value", Floor: 3, Run: assignmentTargetsAreEvaluatedBeforeTheValue},
+			{ID: "C01-R35", Title: "iterators read the container at every step (shared with C16-R31)", Floor: 5, Run: iteratorsReadTheContainerAtEveryStep},
+			{ID: "C01-R36", Title: "every symbol has a slot of its own", Floor: 1, Run: everySymbolHasASlotOfItsOwn},
 		},
 	})
 }
